@@ -829,6 +829,17 @@ def r11_placeholder_delimiters(ctx) -> None:
                 a_ = prog.lookup_class_attr(f.cls.qual, recv.attr)
                 defs = [a_[1].value] if a_ and getattr(a_[1], "value", None) is not None else []
             pats += [d for d in defs if isinstance(d, ast.Call) and call_name(d) == "re.compile" and d.args]
+    if not pats and f.cls is not None:
+        # the pattern used by a helper of the class that insert_placeholders delegates to: every regex with a constant
+        # pattern that mentions the delimiter, anywhere in the class
+        for c in ast.walk(f.cls.node):
+            if isinstance(c, ast.Call) and call_name(c) in ("re.finditer", "re.compile", "re.search", "re.sub", "re.split", "re.findall") and c.args:
+                try:
+                    pv = const_eval(prog, f.module, c.args[0])
+                except ValueError:
+                    continue
+                if isinstance(pv, str) and "%" in pv:
+                    pats.append(c)
     if not pats:
         raise AnalysisError(f"{f.qual}: placeholder pattern not found")
     for c in pats:
